@@ -155,6 +155,7 @@ def run(ctx):
     asg = fb.fns(PKT + "::operator=")
     if len(mc) != 1 or len(asg) != 2:
         raise Broken("Packet move constructor / assignment operators not found")
+    mv_asg = [a2 for a2 in asg if a2.params[0]["t"]["s"].endswith("&&")]
     for f, what in [(mc[0], "move constructor")] + [(a, "move assignment" if a.params[0]["t"]["s"].endswith("&&") else "copy assignment") for a in asg]:
         uses = any(fb.resolve_call(c) is sw for c in f.calls())
         how = "%s is implemented by swap(Packet&, Packet&)" % what
@@ -187,6 +188,61 @@ def run(ctx):
                         how = "copy assignment move-assigns a temporary copy of its argument (copy constructor, then swap in the move assignment)"
         res.check(uses, "C14-R1", "Packet:%s:via-swap" % what.replace(" ", "-"), f.loc, how,
                   "%s does not go through swap(Packet&, Packet&)" % what)
+        if what == "copy assignment" and f.cfg_raw:
+            # per path: unless the two operands are the same object, every member of *this receives the source's — through a swap with a
+            # copy of the source, or member by member (the payload through a deep copy of the source's payload)
+            od = f.params[0]["decl"]
+            worst = None
+            npaths = 0
+            for q in paths.enumerate_paths(f):
+                if q.end != "exit":
+                    continue
+                same_obj = False
+                for a in q.atoms:
+                    if a[0] == "cmp" and a[2] == "==":
+                        sides = [strip_all_casts(a[4]), strip_all_casts(a[5])]
+                        if any(x.get("k") == "this" for x in sides) and any(x.get("k") == "un" and x.get("op") == "&" and
+                                                                            strip_all_casts(x["e"]).get("decl") == od for x in sides):
+                            same_obj = True
+                if same_obj:
+                    continue
+                npaths += 1
+                covered = set()
+                for _, x in q.elems():
+                    if x.get("k") == "call" and fb.resolve_call(x) is sw:
+                        covered |= set(fields)  # (what the swapped temporary holds is the copy constructor's business: R1 above)
+                    if x.get("k") == "call" and mv_asg and fb.resolve_call(x) is mv_asg[0]:
+                        covered |= set(fields)
+                    if x.get("k") == "assign":
+                        lf, rf = member_of_param(x["l"], "this"), member_of_param(x["r"], od)
+                        if lf is not None and lf == rf:
+                            covered.add(lf)
+                    if x.get("k") == "call" and (x.get("callee") or {}).get("nm") == "operator=" and "obj" in x and x.get("args"):
+                        lo, ro = strip_all_casts(x["obj"]), strip_all_casts(x["args"][0])
+                        lf, rf = member_of_param(lo, "this"), member_of_param(ro, od)
+                        if lf is not None and lf == rf and lf != pf:
+                            covered.add(lf)
+                        # *payload = *other.payload  (a deep copy into the existing object), or payload = make_unique<Payload>(*other.payload)
+                        def deref_of(n, pd):
+                            n = strip_all_casts(n)
+                            if n.get("k") == "call" and (n.get("callee") or {}).get("nm") == "operator*" and "obj" in n:
+                                return member_of_param(n["obj"], pd)
+                            if n.get("k") == "un" and n.get("op") == "*":
+                                return member_of_param(n["e"], pd)
+                            return None
+                        if deref_of(lo, "this") == pf and deref_of(ro, od) == pf:
+                            covered.add(pf)
+                        if lf == pf and any(deref_of(y, od) == pf for y in walk(x["args"][0])) and \
+                                any((callee_name(y) or "").startswith("std::make_unique") for y in walk(x["args"][0]) if y.get("k") == "call"):
+                            covered.add(pf)
+                miss = [fl for fl in fields if fl not in covered]
+                if miss and worst is None:
+                    worst = (miss, q)
+            res.check(worst is None, "C14-R1", "Packet::operator=(const Packet&):members", f.loc,
+                      "every member is taken from the source on every path (%d) that is not a self-assignment" % npaths,
+                      "copy assignment leaves %s of the target as they were on the path with %s: the result is not a copy of the source" %
+                      (sorted(x.split("::")[-1] for x in worst[0]) if worst else "", "; ".join(("%s%s" % ("" if a[2] is True else "!", a[1][:50])) if a[0] == "truth"
+                                                                                                   else "%s %s %s" % (a[1][:30], a[2], str(a[3])[:30]) for a in (worst[1].atoms if worst else []))[:200]))
         if what == "move assignment" and any(fb.resolve_call(c) is sw for c in f.calls()):
             # swap alone is safe when source and target are the same object; releasing or overwriting a member of *this
             # first is not (p = std::move(p) would destroy the only payload)
@@ -449,8 +505,9 @@ def run(ctx):
                 uses_eq = any((callee_name(x) or "").endswith("operator==") or (callee_name(x) or "").endswith("operator!=") for x in walk(leaf)
                               if x.get("k") == "call")
                 is_addr = any(x.get("k") == "this" for x in walk(leaf)) and any(x.get("k") == "un" and x.get("op") == "&" for x in walk(leaf)) and not uses_eq
-                res.check(is_addr and not uses_eq, "C14-R6", "Packet::operator=(const Packet&):guard", leaf.get("loc"),
-                          "copy skipped only on address identity", "copy assignment is guarded by `%s`: the target keeps its old state whenever the "
+                # (a branch that merely chooses between two complete ways of copying is judged by C14-R1 `members`: every path covers every member)
+                res.check(not uses_eq, "C14-R6", "Packet::operator=(const Packet&):guard", leaf.get("loc"),
+                          "no branch of the assignment is decided by operator==", "copy assignment is guarded by `%s`: the target keeps its old state whenever the "
                           "(coarser) equality holds, e.g. empty payloads of different types" % canon(leaf))
         if not any(cfg.is_cond_branch(b) for b in cfg.blocks):
             res.ok("C14-R6", "Packet::operator=(const Packet&):guard", a.loc, "assignment is unconditional")
